@@ -26,7 +26,17 @@ __CPROVER_requires(0 < n && n <= CAP && g_n == n)
 __CPROVER_requires(__CPROVER_is_fresh(in, n * sizeof(R)) && __CPROVER_is_fresh(io, n * sizeof(R)))
 __CPROVER_requires(__CPROVER_is_fresh(rowexp, n * sizeof(int)) && __CPROVER_is_fresh(colexp, n * sizeof(int)))
 __CPROVER_requires(0 <= g_k && g_k < n && v_src == SRCARR[g_k] && v_exp == EXPARR[g_k])
-__CPROVER_requires(LEDGER_OK(v_src) && -EXP_MAX <= v_exp && v_exp <= EXP_MAX)
+#ifdef INF_SIDE
+/* bound / side vectors: an entry is finite or infinite on its own side (upper, rhs: +inf; lower, lhs: -inf) */
+__CPROVER_requires(((-FIN <= v_src && v_src <= FIN) || v_src == (INF_SIDE) * INF) && -EXP_MAX <= v_exp && v_exp <= EXP_MAX)
+#else
+/* solution vectors, rays, objective: finite entries */
+__CPROVER_requires(-FIN <= v_src && v_src <= FIN && -EXP_MAX <= v_exp && v_exp <= EXP_MAX)
+#endif
+#ifdef VERIF_SMALL
+/* small-scope counterexample search only: keep the values exactly representable as doubles for the native replay */
+__CPROVER_requires(((-60 <= v_src && v_src <= 60) || v_src == INF || v_src == -INF) && -60 <= v_exp && v_exp <= 60)
+#endif
 __CPROVER_assigns(gp_out, __CPROVER_object_whole(io))
 __CPROVER_ensures(io[g_k] == ((v_src == INF || v_src == -INF) ? v_src : v_src + (SIGN) * v_exp))
 __CPROVER_ensures(EXPARR[g_k] == v_exp)
